@@ -16,6 +16,26 @@ func init() {
 }
 
 func genC04(c *Ctx) {
+	// sources whose contents CHANGE between the materialisations of one stream value (`srcv`): an early-stopped / complete /
+	// failed run, then runs over other contents - empty ones included: every fault-free run delivers the list-level meaning
+	// of the contents it ran over, whatever an earlier run left behind in the operator objects (left out: cluster factories that report
+	// `lastItemOnPreviousCluster`, Window, Skip and Limit - their closures keep state that is never reset; they are outside
+	// C18's reusable subset and nothing is claimed about a second materialisation of them)
+	for _, pipe := range []string{
+		"cluster 2 first srcv 0 0,1,2,3,5|-|4,6",
+		"cluster 3 first srcv 0 0,4,5,9|-|1|-",
+		"filter mod:2:0 cluster 1 first srcv 0 1,2,2,3|-|4,4",
+		"merge 2 srcv 0 1,3,5|-|2 src 1 2,4",
+		"concat 2 srcv 0 1,2|-|7 srcv 1 3|4,5|-",
+		"zip 2 srcv 0 1,2,3|-|9 src 1 4,5",
+		"map add:1 concat 2 srcv 0 1|-|6 cluster 2 first srcv 1 0,1,2|-|5",
+	} {
+		for _, e1 := range []string{"collect take:1 nofault", "collect take:2 nofault", "collect all nofault", "user all err@2", "collect all cancel@1", "user all perr@1"} {
+			c.Case(true, strings.Join([]string{pipe, e1, "collect all nofault", "collect all nofault"}, " || "))
+			c.Case(true, strings.Join([]string{pipe, e1, "collect take:1 nofault", "collect all nofault"}, " || "))
+		}
+	}
+
 	genPipeDynSweep(c, nil, 1500, 20000) // FlatMap family, fault-free cases only (pipedyn.go)
 	genPipeDynVar(c, false, true)        // ... and fault-free histories over a source whose contents change
 	// exhaustive small scope: every unary operator chain of depth <= 2 over small inputs is covered by the
